@@ -788,4 +788,92 @@ theorem vrun_abs (c : Cfg) (rels : List Rel) (ops : List Op) : (vRun c rels ops)
   unfold vRun run
   rw [abs_flushOutput, vRunOps_abs c ops _ (by rw [vFirstPass_abs]; exact firstPass_sorted3 c rels), vFirstPass_abs]
 
+/-! ### Ids other than the one removed (the ID ALPHABET clause: only id EQUALITY matters) -/
+
+/-- `dbRemove_cases` with the range named: the database is rebuilt around the range `find(id)` returned -/
+theorem dbRemove_cases_split (c : Cfg) (s : State) (k : Kind) (id relid : Int) :
+    dbRemove c s k id relid = s ∨
+    ∃ (pre mid post mid2 : List Elem) (st : Stash) (ub : Bool),
+      splitRange (s.getDb k) id = (pre, mid, post) ∧ skel mid2 = skel mid ∧
+      dbRemove c s k id relid = ({ s with stash := st, ub := ub } : State).setDb k (pre ++ mid2 ++ post) := by
+  unfold dbRemove
+  generalize hsr : splitRange (s.getDb k) id = sr
+  obtain ⟨pre, mid, post⟩ := sr
+  simp only []
+  cases mid with
+  | nil => exact Or.inl rfl
+  | cons e0 rest =>
+    refine Or.inr ⟨pre, e0 :: rest, post, _, _, _, rfl, ?_, rfl⟩
+    rw [markFirst_skel]
+    split
+    · simp [skel]
+    · rfl
+
+theorem mids_of_skel {l l' : List Elem} (h : skel l' = skel l) : l'.map (·.mid) = l.map (·.mid) := by
+  have := congrArg (List.map Prod.fst) h
+  simpa [skel, List.map_map, Function.comp_def] using this
+
+/-- a count that only looks at member ids sees the same number in two databases with the same skeleton -/
+theorem filter_mid_length_of_skel {l l' : List Elem} (h : skel l' = skel l) (p : Int → Bool) :
+    (l'.filter (fun e => p e.mid)).length = (l.filter (fun e => p e.mid)).length := by
+  have e1 : ∀ l : List Elem, (l.filter (fun e => p e.mid)).length = ((l.map (·.mid)).filter p).length := by
+    intro l; rw [List.filter_map]; simp [Function.comp_def]
+  rw [e1, e1, mids_of_skel h]
+
+/-- `remove(a, …)` leaves every entry with another member id `b` exactly as it was (same entries, same order, same
+    handles and marks) — however close or far apart, congruent or not, `a` and `b` are -/
+theorem dbRemove_filter_ne (c : Cfg) (s : State) (k k' : Kind) (a b relid : Int) (hs : SortedById (s.getDb k))
+    (hab : a ≠ b) :
+    ((dbRemove c s k a relid).getDb k').filter (fun e => e.mid == b) = (s.getDb k').filter (fun e => e.mid == b) := by
+  rcases dbRemove_cases_split c s k a relid with h | ⟨pre, mid, post, mid2, st, ub, hsr, hsk, heq⟩
+  · rw [h]
+  · rw [heq, getDb_setDb]
+    split
+    · rename_i hk; subst hk
+      have happ := splitRange_append (s.getDb k') a
+      have hf := hsr.symm.trans (splitRange_sorted _ a hs)
+      rw [hsr] at happ
+      simp only [Prod.mk.injEq] at hf happ
+      obtain ⟨_, hmid, _⟩ := hf
+      have hm : ∀ e ∈ mid, e.mid = a := by
+        intro e he; rw [hmid] at he; simpa using (List.mem_filter.mp he).2
+      have hm2 : ∀ e ∈ mid2, e.mid = a := by
+        intro e he
+        have : e.mid ∈ mid2.map (·.mid) := List.mem_map.mpr ⟨e, he, rfl⟩
+        rw [mids_of_skel hsk] at this
+        obtain ⟨e', he', hee⟩ := List.mem_map.mp this
+        rw [← hee]; exact hm e' he'
+      have z1 : mid.filter (fun e => e.mid == b) = [] :=
+        List.filter_eq_nil_iff.mpr (fun e he => by simp [hm e he, hab])
+      have z2 : mid2.filter (fun e => e.mid == b) = [] :=
+        List.filter_eq_nil_iff.mpr (fun e he => by simp [hm2 e he, hab])
+      rw [← happ]
+      simp only [List.filter_append, z1, z2]
+    · cases k' <;> rfl
+
+/-- abstract model: what `find(b)` returns is the same before and after `remove(a, …)`, for every `b ≠ a` -/
+theorem dbRemove_other_range (c : Cfg) (s : State) (k k' : Kind) (a b relid : Int) (hs : Sorted3 s) (hab : a ≠ b) :
+    (splitRange ((dbRemove c s k a relid).getDb k') b).2.1 = (splitRange (s.getDb k') b).2.1 := by
+  rw [splitRange_sorted _ b (dbRemove_sorted3 c s k a relid hs k'), splitRange_sorted _ b (hs k')]
+  exact dbRemove_filter_ne c s k k' a b relid (hs k) hab
+
+/-- vector machine: the index range `find(b)` returns is the same before and after `remove(a, …)` -/
+theorem vRemove_other_find (c : Cfg) (v : VState) (k k' : Kind) (a b relid : Int) (hs : Sorted3 v.abs) (hab : a ≠ b) :
+    vFind ((vRemove c v k a relid).getDb k') b = vFind (v.getDb k') b := by
+  have hl : ((vRemove c v k a relid).getDb k').toList = (dbRemove c v.abs k a relid).getDb k' := by
+    rw [← abs_getDb, vRemove_abs c v k a relid hs]
+  have hs' : SortedById ((vRemove c v k a relid).getDb k').toList := by
+    rw [hl]; exact dbRemove_sorted3 c v.abs k a relid hs k'
+  have hs0 : SortedById (v.getDb k').toList := by rw [← abs_getDb]; exact hs k'
+  have hsk : skel ((vRemove c v k a relid).getDb k').toList = skel (v.getDb k').toList := by
+    rw [hl, ← abs_getDb]; exact dbRemove_skel c v.abs k a relid k'
+  obtain ⟨h1, h2⟩ := vFind_spec _ b hs'
+  obtain ⟨g1, g2⟩ := vFind_spec _ b hs0
+  have hr := dbRemove_other_range c v.abs k k' a b relid hs hab
+  rw [← hl, abs_getDb] at hr
+  have hp : (splitRange ((vRemove c v k a relid).getDb k').toList b).1.length = (splitRange (v.getDb k').toList b).1.length := by
+    rw [splitRange_sorted _ b hs', splitRange_sorted _ b hs0]
+    exact filter_mid_length_of_skel hsk (fun m => decide (m < b))
+  exact Prod.ext (by rw [h1, g1, hp]) (by rw [h2, g2, hp, hr])
+
 end Osmium.RelMgr
